@@ -41,8 +41,12 @@ def run(pid, replay=None):
     res = vlib.read_ndjson(rf)
     if len(res) < len(cases) * reps:
         raise vlib.Infra("clientdrv produced %d results for %d cases" % (len(res), len(cases)))
+    rk_total = rk_done = 0
     for r in res:
         c = cases[r["case"]]
+        if "rekill_done" in r["got"]:
+            rk_total += 1
+            rk_done += 1 if r["got"]["rekill_done"] else 0
         got = [{"k": x["k"], "res": x["res"], "receipts": x["receipts"]} for x in r["got"]["reqs"]]
         if got not in allowed[r["case"]]:
             pols = ",".join(x["policy"] for x in c["reqs"])
@@ -57,10 +61,13 @@ def run(pid, replay=None):
                         "real client outcome is not a terminal outcome of Reconnect.tla: policies=%s concurrent=%s got=%s allowed=%s" % (
                             pols, c["concurrent"], json.dumps(got), json.dumps(allowed[r["case"]])),
                         {"kind": "client", "case": c, "allowed": allowed[r["case"]], "got": r["got"]})
-    log("C29: %d policy assignments x %d runs on a real telegram.Client" % (len(cases), reps))
+    log("C29: %d policy assignments x %d runs on a real telegram.Client; kill-at-wake-up schedule realised in %d of %d runs" % (len(cases), reps, rk_done, rk_total))
+    if rk_total and rk_done * 2 < rk_total and not V.viol:
+        raise vlib.Infra("the kill_rekill schedule (second kill at the invoker's wake-up log record) was realised in only %d of %d runs: "
+                         "the scheduling point is gone or the driver is too slow" % (rk_done, rk_total))
     cov = {"states": states or 1, "transitions": trans or 1, "traces_validated_against_impl": len(res),
            "evaluations": len(res), "distinct_nontrivial": len(cases),
-           "rule": "cases = every assignment of the six server policies to one or two sequential requests and to two concurrent requests; "
+           "rule": "cases = every assignment of the server policies (answer, kill, ack_kill, result_kill, ack_answer, hold, sendfail, kill_rekill) to one or two sequential requests and to two concurrent requests; "
                    "each run end to end on a real telegram.Client with a scripted MTProto server; distinct = distinct assignments",
            "samples": [{"case": cases[0], "allowed": allowed[0], "observed": res[0]["got"]},
                        {"case": cases[-1], "allowed": allowed[-1], "observed": res[-1]["got"]}],
